@@ -521,8 +521,18 @@ def run(check, tier, seed, replay=None):
             lines.append(f"VIOLATION property={pid} replay={path} no-failing-input-found")
         status = 1
 
+    # the code under test may have written unterminated text to stderr; when both streams go to one pipe the verdict
+    # lines must still start at the beginning of a line
+    sys.stdout.flush()
+    sys.stderr.write("\n")
+    sys.stderr.flush()
     for kid, cs in sorted(known_hits.items()):
         print(f"KNOWN-FINDING: property={pid} {kid} {known[kid]['what']} ({len(cs)} case(s) this run)")
+    if not replay:
+        # every listed open finding of this property gets its line, also when this run's cases did not reproduce it
+        for kid, e in sorted(known.items()):
+            if e.get("property") == pid and e.get("status") == "open" and kid not in known_hits:
+                print(f"KNOWN-FINDING: property={pid} {kid} {e['what']} (listed; not reproduced by this run's cases)")
     for l in lines:
         print(l)
 
